@@ -185,6 +185,26 @@ pub fn run(ctx: &Ctx) {
         check_valid,
     );
 
+    let cold_cases = || {
+        let mut v = Vec::new();
+        for mode in 0..4u8 {
+            for len in [16usize, 33, 48] {
+                let s = 0xc07d00 | (mode as u64) << 8 | len as u64;
+                v.push(MC { mode, key: Hex(expand_bytes(s ^ 1, 16)), iv: Hex(expand_bytes(s ^ 2, 16)), data: Hex(expand_bytes(s ^ 3, len)) });
+            }
+        }
+        v
+    };
+    ctx.cold("cold_start_decrypt", "mode decryption as the first library operation of a fresh process: arbitrary bytes, and valid ciphertexts made by the reference (4 modes x 3 lengths each)", move || {
+        let mut v = cold_cases();
+        for c in cold_cases() {
+            let ct = rsm4::encrypt(mode_of(c.mode), &arr16(&c.key), &arr16(&c.iv), &c.data);
+            v.push(MC { mode: c.mode, key: c.key.clone(), iv: c.iv.clone(), data: Hex(ct) });
+        }
+        v
+    }, check_decrypt_any);
+    ctx.cold("cold_start_encrypt", "mode encryption (then decryption) as the first library operation of a fresh process (4 modes x 3 lengths)", cold_cases, check_valid);
+
     ctx.exhaustive(
         "carry_ivs",
         "4 modes x IVs with t = 1..16 trailing 0xFF bytes x data of 49..=96 bytes step 47 (>= 4 counter values)",
